@@ -251,6 +251,7 @@ func runConcCase(c *Case, env *Env) *Result {
 		bws := w.Segs[(cc.Build-1)%len(w.Segs)]
 		if bws.Kind == model.Built && len(bws.Docs) <= 300 {
 			buildWant = bws.Bytes
+			PreBuild(IceImpl, len(bws.Docs))
 			bodies = append(bodies, func(int) {
 				buildGot, buildErr, buildPanic = buildBytes(bws.Def, bws.Idx, w.DV, sched)
 			})
